@@ -873,6 +873,10 @@ func (s *Server) SetReplicationConfig(cfg config.ReplicationConfig) error {
 	}
 
 	if rule != nil {
+		// Update a copy: `rule` is the rule object the rule manager is serving, changing it in place
+		// makes SetRule see no difference and skip saving the rule to storage.
+		newRule := *rule
+		rule = &newRule
 		rule.Count = int(cfg.MaxReplicas)
 		rule.LocationLabels = cfg.LocationLabels
 		if err := s.GetRaftCluster().GetRuleManager().SetRule(rule); err != nil {
@@ -886,6 +890,9 @@ func (s *Server) SetReplicationConfig(cfg config.ReplicationConfig) error {
 	if err := s.persistOptions.Persist(s.storage); err != nil {
 		s.persistOptions.SetReplicationConfig(old)
 		if rule != nil {
+			// again a copy: `rule` is now the rule object being served.
+			oldRule := *rule
+			rule = &oldRule
 			rule.Count = int(old.MaxReplicas)
 			rule.LocationLabels = old.LocationLabels
 			if e := s.GetRaftCluster().GetRuleManager().SetRule(rule); e != nil {
